@@ -4,10 +4,14 @@
 #include "vw.h"
 #include "explore.h"
 #include "images.h"
+#include "refdns.h"
+#include "adv.h"
+#include "tmsg.h"
 
 IMG_SERVER(s)
+void s_login_calculate(char *buf, int buflen, const char *pass, int seed);
 
-enum { K_CONFIGS, K_LOOKUPS, K_SKIPCASES };
+enum { K_CONFIGS, K_LOOKUPS, K_SKIPCASES, K_LOGINS };
 
 static void viol(const char *what, const char *fmt, ...)
 {
@@ -101,8 +105,54 @@ static void mkjobs(void)
 		}
 }
 
+
+/* what each session is TOLD: the real server loop does the version and login exchange for every slot of a configuration and the
+ * addresses in the login reply ("server-client-mtu-netbits") must be the ones the server's table holds and routes by */
+static const struct { const char *ip; int bits; } HSCFG[] = {
+	{ "10.0.0.1", 27 }, { "10.0.0.5", 29 }, { "192.168.100.129", 25 }, { "100.100.100.105", 29 }, { "172.31.250.100", 27 }, { "192.168.255.250", 30 },
+	{ "223.255.255.254", 24 }, { "1.1.1.1", 8 }, { "111.222.233.244", 28 }, { "192.168.100.200", 26 },
+};
+#define NHS ((int)(sizeof HSCFG / sizeof HSCFG[0]))
+static void hs_job(int k)
+{
+	struct w_server_cfg c = { .topdomain = "t.example.com", .password = "sesame", .my_ip = HSCFG[k].ip, .netmask = HSCFG[k].bits, .mtu = 1130, .check_ip = 1, .srand_seed = 1 };
+	unsigned char pw32[33]; memset(pw32, 0, sizeof pw32); strcpy((char *)pw32, "sesame");
+	vw_init();
+	adv_boot(&c, 0, 0);
+	int nu = s_w_created_users();
+	struct tun_user *us = s_w_users();
+	char seen[16][64]; int nseen = 0;
+	for (int i = 0; i < nu && i < 16; i++) {
+		struct sockaddr_storage me; socklen_t ml; char a[32];
+		snprintf(a, sizeof a, "198.51.100.%d", 10 + i); vw_mkaddr(&me, &ml, a, 4000 + i);
+		uint8_t pkt[700]; const uint8_t *pl; static rd_msg m; int n;
+		adv_clear(); n = tm_version(pkt, 100 + i, 10, 0x00000502, 0x300 + i, c.topdomain); adv_send(&me, ml, pkt, n);
+		if (adv_nout != 1 || (n = tm_null_payload(adv_outs[0].data, adv_outs[0].len, &pl, &m)) < 9 || memcmp(pl, "VACK", 4)) { viol("session-not-creatable", "%s/%d: version request %d of %d not acknowledged", HSCFG[k].ip, HSCFG[k].bits, i + 1, nu); return; }
+		int slot = pl[8]; uint32_t seed = (pl[4] << 24) | (pl[5] << 16) | (pl[6] << 8) | pl[7];
+		uint8_t h[16]; s_login_calculate((char *)h, 16, (const char *)pw32, (int)seed);
+		adv_clear(); n = tm_login(pkt, 200 + i, 10, slot, h, 16, 0x400 + i, c.topdomain); adv_send(&me, ml, pkt, n);
+		xp_count(K_LOGINS, 1);
+		if (adv_nout != 1 || (n = tm_null_payload(adv_outs[0].data, adv_outs[0].len, &pl, &m)) < 10) { viol("login-not-answered", "%s/%d: login of session %d not answered", HSCFG[k].ip, HSCFG[k].bits, slot); return; }
+		char rep[200]; snprintf(rep, sizeof rep, "%.*s", n > 190 ? 190 : n, pl);
+		char sip[70] = "", cip[70] = ""; int mtu = -1, nb = -1;
+		if (sscanf(rep, "%64[^-]-%64[^-]-%d-%d", sip, cip, &mtu, &nb) != 4) { viol("login-reply-unparsable", "%s/%d: login reply '%s'", HSCFG[k].ip, HSCFG[k].bits, rep); continue; }
+		struct in_addr ia; ia.s_addr = us[slot].tun_ip;
+		char want[32]; snprintf(want, sizeof want, "%s", inet_ntoa(ia));
+		if (strcmp(sip, HSCFG[k].ip)) viol("announced-server-address-wrong", "%s/%d: login reply '%s' announces server %s", HSCFG[k].ip, HSCFG[k].bits, rep, sip);
+		if (strcmp(cip, want)) viol("announced-address-differs-from-assigned", "%s/%d: session %d is told %s but the server's table holds (and routes) %s", HSCFG[k].ip, HSCFG[k].bits, slot, cip, want);
+		if (mtu != 1130 || nb != HSCFG[k].bits) viol("announced-mtu-or-netmask-wrong", "%s/%d: login reply '%s'", HSCFG[k].ip, HSCFG[k].bits, rep);
+		for (int j = 0; j < nseen; j++) if (!strcmp(seen[j], cip)) viol("announced-address-not-distinct", "%s/%d: two sessions are told the address %s", HSCFG[k].ip, HSCFG[k].bits, cip);
+		if (nseen < 16) snprintf(seen[nseen++], 64, "%s", cip);
+		if (!strcmp(cip, HSCFG[k].ip)) viol("address-is-servers", "%s/%d: session %d is told the server's own address", HSCFG[k].ip, HSCFG[k].bits, slot);
+		if (s_find_user_by_ip(inet_addr(cip)) != slot) viol("lookup-misses-owner", "%s/%d: looking up the announced address %s does not find session %d", HSCFG[k].ip, HSCFG[k].bits, cip, slot);
+	}
+	xp_outcome(0x18000 + k);
+	if (k == 2) xp_sample("handshake through the real server loop for every slot of %d configurations (e.g. %s/%d): announced server/client address, mtu and netmask compared with the server's table", NHS, HSCFG[k].ip, HSCFG[k].bits);
+}
+
 static void job(int j)
 {
+	if (j >= njobs) { hs_job(j - njobs); return; }
 	int bits = JOBS[j].bits; uint32_t base = BASES[JOBS[j].base];
 	uint32_t size = 1u << (32 - bits);
 	if (bits >= 16) {
@@ -126,9 +176,9 @@ int main(int argc, char **argv)
 	mkjobs();
 	if (a.replay) { job(xp_load_replay(a.replay)); return 0; }
 	hc_quiet();
-	xp_run_jobs(njobs, job, a.workers);
+	xp_run_jobs(njobs + NHS, job, a.workers);
 	char extra[200];
-	snprintf(extra, sizeof extra, "\"configs\":%ld,\"lookups\":%ld,\"skip_cases\":%ld", XS->counters[K_CONFIGS], XS->counters[K_LOOKUPS], XS->counters[K_SKIPCASES]);
+	snprintf(extra, sizeof extra, "\"configs\":%ld,\"lookups\":%ld,\"skip_cases\":%ld,\"logins_through_server_loop\":%ld", XS->counters[K_CONFIGS], XS->counters[K_LOOKUPS], XS->counters[K_SKIPCASES], XS->counters[K_LOGINS]);
 	xp_print_stats(extra);
 	return 0;
 }
